@@ -12,7 +12,7 @@ import ast
 from ..core import AnalysisError, norm, loc, walk_no_nested, attr_chain, call_name, kwarg, find_calls, call_matches, receiver_name, assigned_from
 from ..cfg import CFG
 from ..core import func_params
-from ..normalize import inline, branch_values, merge_outcomes, Unknown, ctext, canon, local_env, expand, builders, eval_test, value_under, _enclosing, conjuncts
+from ..normalize import inline, branch_values, merge_outcomes, Unknown, ctext, canon, local_env, expand, builders, eval_test, value_under, _enclosing, conjuncts, truth_under, clone
 
 DELS = 'fim.slivers.delegations'
 ARM = 'fim.graph.resources.abc_arm:ABCARMPropertyGraph'
@@ -22,6 +22,91 @@ class _Row:
     def __init__(self, outcome, value):
         self.stmt = outcome.stmt
         self.value = value
+
+
+def check_decoder_rejections(prog, rep, rule):
+    """Delegations.from_json, evaluated for the key sets an entry can carry: an entry holding the details field of the other
+    delegation type next to its own, and a pool reference that carries details, must end in a rejection (a raise), whatever
+    the branching style of the decoder."""
+    mod = prog.module(DELS)
+    delegs = mod.classes.get('Delegations')
+    fj = delegs.methods.get('from_json')
+    if fj is None:
+        raise AnalysisError('Delegations.from_json vanished')
+    fji = inline(prog, delegs, fj)
+    loops = [l for l in walk_no_nested(fji) if isinstance(l, ast.For) and isinstance(l.target, ast.Tuple) and len(l.target.elts) == 2 and
+             isinstance(l.iter, ast.Call) and call_name(l.iter) == 'items']
+    if not loops:
+        raise AnalysisError('Delegations.from_json: entry loop not found')
+    loop = loops[0]
+    ev = l_val = loop.target.elts[1].id
+    fold = lambda e_: prog.const_eval(e_, mod, delegs)
+
+    def sink(st):
+        if isinstance(st, ast.Raise):
+            return ast.Constant(value='reject')
+        return None
+    try:
+        outs = branch_values(loop.body, sink, local_env(fji))
+    except Unknown as u:
+        raise AnalysisError(f'Delegations.from_json not analysable: {u}')
+    FIELDS = {'pool_id': 'FIELD_POOL_ID', 'pool': 'FIELD_POOL', 'capacities': 'FIELD_CAPACITIES', 'labels': 'FIELD_LABELS'}
+    fvals = {}
+    for nm, const in FIELDS.items():
+        try:
+            fvals[prog.const_eval(ast.parse(f'ABCPropertyGraphConstants.{const}', mode='eval').body, mod, delegs)] = nm
+        except Exception:
+            raise AnalysisError(f'constant {const} does not fold')
+
+    def subst(cond, present, atype):
+        """the condition with the membership tests on the entry decided for the key set ``present``"""
+        c2 = clone(cond)
+
+        class _S(ast.NodeTransformer):
+            def visit_Compare(self, n):
+                self.generic_visit(n)
+                if len(n.ops) == 1 and isinstance(n.ops[0], (ast.In, ast.NotIn)):
+                    r = n.comparators[0]
+                    if isinstance(r, ast.Call) and call_name(r) == 'keys' and not r.args:
+                        r = r.func.value
+                    if isinstance(r, ast.Name) and r.id == ev:
+                        try:
+                            fv = fold(n.left)
+                        except Exception:
+                            return n
+                        if fv in fvals:
+                            val = (fvals[fv] in present)
+                            return ast.Constant(value=val if isinstance(n.ops[0], ast.In) else not val)
+                return n
+        return _S().visit(c2)
+    cases = [('mixed content, capacity delegations', {'pool_id', 'capacities', 'labels'}, 'CAPACITY'),
+             ('mixed content, label delegations', {'pool_id', 'capacities', 'labels'}, 'LABEL'),
+             ('capacity details on a pool reference', {'pool', 'capacities'}, 'CAPACITY'),
+             ('label details on a pool reference', {'pool', 'labels'}, 'LABEL')]
+    for what, present, atype in cases:
+        bind = {'atype': prog.const_eval(ast.parse(f'DelegationType.{atype}', mode='eval').body, mod, delegs)}
+        rejected = False
+        for o in outs:
+            allt = True
+            for n_ in o.cond_nodes:
+                try:
+                    if not truth_under(subst(n_, present, atype), bind, fold):
+                        allt = False
+                        break
+                except Unknown:
+                    allt = False
+                    break
+                except Exception:
+                    allt = False
+                    break
+            if allt:
+                rejected = True
+                break
+        rep.instance(rule, f'Delegations.from_json: entry with keys {sorted(present)} decoded as {atype}: rejected={rejected}')
+        if not rejected:
+            rep.violation(rule, loc(mod, fj), 'Delegations.from_json', f'{what} accepted',
+                          f'an entry with the keys {sorted(present)} is decoded as a {atype} delegation without being rejected: the extra content '
+                          f'is silently dropped, although {what.split(",")[0]} must always be refused')
 
 
 def check_delegation_codec(prog, rep, rule):
@@ -226,6 +311,7 @@ def run(prog, rep):
     rep.rule('R1', 'delegation field writes are guarded and confined', floor=4)
     rep.rule('R2', 'delegation encoder/decoder agree on keys, formats and types', floor=8)
     rep.rule('R3', 'pool regrouping agreement, index rebuild, check before write', floor=8)
+    rep.rule('R4', 'the decoder rejects mixed label/capacity content and details on a pool reference', floor=4)
 
     mod = prog.module(DELS)
     deleg = mod.classes.get('Delegation')
@@ -311,6 +397,7 @@ def run(prog, rep):
                                           f'(only rewrite_delegations may re-key one entry)')
 
     check_delegation_codec(prog, rep, 'R2')
+    check_decoder_rejections(prog, rep, 'R4')
 
     # ---- R3 ----
     gen = pools.methods.get('generate_delegations_by_node_id')
@@ -533,6 +620,9 @@ def run(prog, rep):
 
 DF = 'fim/slivers/delegations.py'
 MUTANTS = [
+    {'name': 'reference-with-details-accepted', 'file': 'fim/slivers/delegations.py', 'rule': 'R4',
+     'find': "                if ABCPropertyGraphConstants.FIELD_CAPACITIES in v.keys() or ABCPropertyGraphConstants.FIELD_LABELS in v.keys():\n",
+     'replace': "                if False:\n"},
     {'name': 'pool-reference-guard-dropped', 'file': DF, 'rule': 'R1',
      'find': "        if self.format == DelegationFormat.PoolReference:\n            raise DelegationException(msg=f'Trying to add Labels or Capacities object to PoolReference delegation')\n", 'replace': ''},
     {'name': 'duplicate-guard-dropped', 'file': DF, 'rule': 'R1',
